@@ -60,6 +60,9 @@ pub struct RetryCase {
     /// executor sees timers late; waiting longer than the backoff is allowed, shorter is not)
     #[serde(default = "one")]
     pub step_ms: u64,
+    /// builder call order (bit 0 predicate first, bit 1 max_attempts last, bit 2 budget first)
+    #[serde(default)]
+    pub setter_order: u8,
 }
 
 fn one() -> u64 {
@@ -103,10 +106,10 @@ fn case_strategy(_tier: Tier) -> BoxedStrategy<RetryCase> {
         budget,
         prop::collection::vec(request, 1..=4),
         prop::collection::vec(any::<u8>(), 0..=32),
-        prop_oneof![5 => Just(1u64), 1 => Just(2u64), 1 => Just(5u64), 1 => 2u64..=40],
+        (prop_oneof![5 => Just(1u64), 1 => Just(2u64), 1 => Just(5u64), 1 => 2u64..=40], 0u8..8),
     )
         .prop_map(
-            |(max_attempts, per_request, backoff, predicate, budget, requests, order, step_ms)| RetryCase {
+            |(max_attempts, per_request, backoff, predicate, budget, requests, order, (step_ms, setter_order))| RetryCase {
                 max_attempts,
                 per_request,
                 backoff,
@@ -115,6 +118,7 @@ fn case_strategy(_tier: Tier) -> BoxedStrategy<RetryCase> {
                 requests,
                 order,
                 step_ms,
+                setter_order,
             },
         );
     // long outage: one request retried 40-80 times against a capped exponential (or tiny fixed)
@@ -148,6 +152,7 @@ fn case_strategy(_tier: Tier) -> BoxedStrategy<RetryCase> {
             }],
             order: vec![],
             step_ms: 1,
+            setter_order: 0,
         });
     prop_oneof![14 => general, 1 => long].boxed()
 }
@@ -234,11 +239,64 @@ async fn interp(case: &RetryCase) -> Verdict {
     let inner = Scripted::from_table(log.clone(), table, Step::ok(0));
 
     let mut b = RetryLayer::<Req, SErr>::builder().name("vcheck");
-    b = if case.per_request {
-        b.max_attempts_fn(|r: &Req| (r.tag & 0xff) as usize)
-    } else {
-        b.max_attempts(case.max_attempts)
+    // builder call order: bit 0 predicate before the back-off setter, bit 1 max_attempts last,
+    // bit 2 budget before the back-off setter (setters are documented as order-independent)
+    let (pred_first, attempts_last, budget_first) = (
+        case.setter_order & 1 != 0,
+        case.setter_order & 2 != 0,
+        case.setter_order & 4 != 0,
+    );
+    if !attempts_last {
+        b = if case.per_request {
+            b.max_attempts_fn(|r: &Req| (r.tag & 0xff) as usize)
+        } else {
+            b.max_attempts(case.max_attempts)
+        };
+    }
+    if case.predicate && pred_first {
+        b = b.retry_on(|e: &SErr| e.code != 9);
+    }
+    let budget_of = |log: &Log| -> Option<Arc<dyn RetryBudget>> {
+        match &case.budget {
+            Budget::None => None,
+            Budget::Token { max, initial } => {
+                let inner_b = RetryBudgetBuilder::new()
+                    .token_bucket()
+                    .max_tokens(*max)
+                    .initial_tokens(*initial)
+                    .build();
+                Some(Arc::new(LogBudget {
+                    inner: inner_b,
+                    log: log.clone(),
+                }))
+            }
+            Budget::Aimd {
+                min,
+                max,
+                deposit,
+                cost,
+                factor10,
+            } => {
+                let inner_b = RetryBudgetBuilder::new()
+                    .aimd()
+                    .min_budget(*min)
+                    .max_budget(*max)
+                    .deposit_amount(*deposit)
+                    .withdraw_amount(*cost)
+                    .decrease_factor(*factor10 as f64 / 10.0)
+                    .build();
+                Some(Arc::new(LogBudget {
+                    inner: inner_b,
+                    log: log.clone(),
+                }))
+            }
+        }
     };
+    if budget_first {
+        if let Some(bg) = budget_of(&log) {
+            b = b.budget(bg);
+        }
+    }
     // expected lower bound (ns) of the delay before retry k, where it is computed independently
     let mut independent: Option<Box<dyn Fn(usize) -> u128>> = None;
     // checked in addition to the value the wrapped interval function reported
@@ -296,43 +354,21 @@ async fn interp(case: &RetryCase) -> Verdict {
             log: log.clone(),
         }),
     };
-    if case.predicate {
+    if case.predicate && !pred_first {
         b = b.retry_on(|e: &SErr| e.code != 9);
     }
     let has_budget = !matches!(case.budget, Budget::None);
-    match &case.budget {
-        Budget::None => {}
-        Budget::Token { max, initial } => {
-            let inner_b = RetryBudgetBuilder::new()
-                .token_bucket()
-                .max_tokens(*max)
-                .initial_tokens(*initial)
-                .build();
-            b = b.budget(Arc::new(LogBudget {
-                inner: inner_b,
-                log: log.clone(),
-            }));
+    if !budget_first {
+        if let Some(bg) = budget_of(&log) {
+            b = b.budget(bg);
         }
-        Budget::Aimd {
-            min,
-            max,
-            deposit,
-            cost,
-            factor10,
-        } => {
-            let inner_b = RetryBudgetBuilder::new()
-                .aimd()
-                .min_budget(*min)
-                .max_budget(*max)
-                .deposit_amount(*deposit)
-                .withdraw_amount(*cost)
-                .decrease_factor(*factor10 as f64 / 10.0)
-                .build();
-            b = b.budget(Arc::new(LogBudget {
-                inner: inner_b,
-                log: log.clone(),
-            }));
-        }
+    }
+    if attempts_last {
+        b = if case.per_request {
+            b.max_attempts_fn(|r: &Req| (r.tag & 0xff) as usize)
+        } else {
+            b.max_attempts(case.max_attempts)
+        };
     }
     let layer = b.build();
     let mut svc = layer.layer(inner.clone());
